@@ -543,8 +543,12 @@ class Evaluator(object):
             return ('field', base, node['name'])
         if k == 'Struct':
             fs = []
+            sadt = norm_path(H.res_path(node['res']))
             for n, e in node['fields']:
-                fs.append((n, self.eval(e, env, guards, fn, chain)))
+                v_ = self.eval(e, env, guards, fn, chain)
+                if (sadt, n) in (getattr(self, 'obs', None) or ()):
+                    continue  # a field that only observes the run is not part of the value
+                fs.append((n, v_))
             base = None
             if 'base' in node:
                 base = self.eval(node['base'], env, guards, fn, chain)
